@@ -120,10 +120,18 @@ def parseCode (s : String) : Option (List Nat) :=
 def parseCodes (s : String) : Option (List (List Nat)) :=
   if s = "-" then some [] else (s.splitOn "/").mapM parseCode
 
-def chunkName (c : Chunk Sym) : String :=
+def chunkLevel (c : Chunk Sym) : Nat :=
   match c.value with
-  | .ech d i => s!"{d}.{i}"
-  | _ => "?"
+  | .ech d _ => d
+  | _ => 0
+
+/-- run-length encoding of the levels of the chunk list, e.g. `1*8 2*3` -/
+def levelRuns (cs : List (Chunk Sym)) : String :=
+  let runs : List (Nat × Nat) := cs.foldl (fun acc c =>
+    match acc with
+    | (l, n) :: rest => if l = chunkLevel c then (l, n + 1) :: rest else (chunkLevel c, 1) :: acc
+    | [] => [(chunkLevel c, 1)]) []
+  " ".intercalate (runs.reverse.map fun (l, n) => s!"{l}*{n}")
 
 def fuel : Nat := 24
 
@@ -141,7 +149,7 @@ def step (_ : Unit) (ws : List String) : Unit × String :=
           | .wrap _ d => d
           | _ => 0
         let sound := dmc.address == dmc.value.code && chunks.all (fun c => c.address == c.value.code)
-        ((), s!"ok lvl={lvl} dm={S.len dmc.value} addr={if sound then "content" else "other"} chunks={" ".intercalate (chunks.map chunkName)}")
+        ((), s!"ok lvl={lvl} dm={S.len dmc.value} addr={if sound then "content" else "other"} chunks={levelRuns chunks}")
     | _, _, _ => ((), "bad-op")
   | "fetch" :: rest =>
     match (field "max" rest).bind String.toNat?, (field "len" rest).bind String.toNat?, (field "tab" rest).bind parseTab,
